@@ -3017,6 +3017,52 @@ def _balanced(text, i):
     raise AnchorLost("unbalanced braces")
 
 
+_CPP_DECL = re.compile(r"(?<![\w:<])(?:const\s+)?(?:unsigned\s+)?(?:int|double|bool|size_t|auto|float|long|"
+                       r"std::[\w:]+(?:\s*<[^;{}()]*?>)?)\s*[&*]?\s+([A-Za-z_]\w*)\s*(?=[=;,(\[)])")
+
+
+def _cpp_fn(text, signature_regex):
+    """(parameter names, body text) of the first C++ function whose header matches"""
+    m = re.search(signature_regex, text)
+    if not m:
+        raise AnchorLost("C++ function " + signature_regex)
+    hdr = m.group(0)
+    params = []
+    if "(" in hdr:
+        inner = hdr[hdr.index("(") + 1:hdr.rindex(")")]
+        depth, cur, parts = 0, "", []
+        for ch in inner:
+            if ch in "<(":
+                depth += 1
+            elif ch in ">)":
+                depth -= 1
+            if ch == "," and depth == 0:
+                parts.append(cur)
+                cur = ""
+            else:
+                cur += ch
+        parts.append(cur)
+        for part in parts:
+            ids = re.findall(r"[A-Za-z_]\w*", part)
+            if ids:
+                params.append(ids[-1])
+    return params, cpp_function_body(text, signature_regex)
+
+
+def _alpha_cpp(body, params=()):
+    """C++ counterpart of `_alpha` (same renaming rule: v0, v1, … by order of first binding): the parameters listed in
+    `params` first, then every local declared in `body` (declarations with a built-in / std:: type, loop variables).
+    Returns the renaming function on text."""
+    names = []
+    for nme in list(params) + [m.group(1) for m in _CPP_DECL.finditer(body)]:
+        if nme not in names and nme not in ("return", "else", "new", "delete"):
+            names.append(nme)
+    if not names:
+        return lambda s: s
+    rx = re.compile(r"(?<![\.\w\"'])(?<!->)(%s)(?![\w\"'])" % "|".join(re.escape(x) for x in sorted(names, key=len, reverse=True)))
+    return lambda s: rx.sub(lambda m: "v%d" % names.index(m.group(1)), s)
+
+
 @group
 def gen_Stoch(repo):
     def strs(l):
@@ -3024,46 +3070,47 @@ def gen_Stoch(repo):
     L = ["namespace Strengths.Gen\n"]
     eng = _cpp(repo, "engine.cpp")
 
-    # ---- GenerateStochasticDistribution
-    body = cpp_function_body(eng, r"GenerateStochasticDistribution\s*\([^)]*\)\s*")
-    stm = _cpp_stmts(body)
-    m = re.search(r"if\s*\(\s*mesh_x\[i\]\s*<\s*([0-9.eE+-]+)\s*\)", body)
+    # ---- GenerateStochasticDistribution (parameters and locals renamed v0, v1, … : alpha-normalised)
+    params, body = _cpp_fn(eng, r"GenerateStochasticDistribution\s*\([^)]*\)\s*")
+    if len(params) != 4:
+        raise AnchorLost("GenerateStochasticDistribution parameter list")
+    al = _alpha_cpp(body, params)
+    nb = al(body)                                     # v0 = state array, v1 = n_meshes, v2 = n_species, v3 = seed
+    m = re.search(r"if\s*\(\s*v0\[(v\d+)\]\s*<\s*([0-9.eE+-]+)\s*\)", nb)
     if not m:
         raise AnchorLost("GenerateStochasticDistribution Poisson/normal switch")
     L.append("/-- `GenerateStochasticDistribution`: below this amount an entry is a Poisson draw, from it on a floored normal draw -/")
-    L.append("def poissonNormalSwitch : Rat := %s" % lean_rat(Fraction(m.group(1))))
-    L.append("/-- `GenerateStochasticDistribution`, whole body as a normalised statement list -/")
-    L.append("def gsdBody : List String := %s" % strs(stm))
-    # the draw target and the scan of the correction loop
-    m = re.search(r"double\s+target\s*=\s*([^;]+);", body)
-    if not m:
-        raise AnchorLost("GenerateStochasticDistribution target")
-    L.append("def gsdTarget : String := %s" % lean_str(re.sub(r"\s+", "", m.group(1))))
-    m = re.search(r"cumul\s*\+=\s*mesh_x\[([^\]]+)\]\s*;\s*if\s*\(([^)]*)\)", body)
+    L.append("def poissonNormalSwitch : Rat := %s" % lean_rat(Fraction(m.group(2))))
+    L.append("/-- `GenerateStochasticDistribution`, whole body as a statement list, blanks removed, parameters and locals renamed\n"
+             "v0, v1, … in order of first binding (v0 = state, v1 = n_meshes, v2 = n_species, v3 = seed) -/")
+    L.append("def gsdBody : List String := %s" % strs(_cpp_stmts(nb)))
+    # the scan of the correction loop: `acc += state[IDX]; if (target < acc)` inside `for (int c = 0; c < n_meshes; …)`
+    m = re.search(r"for\s*\(\s*int\s+(v\d+)\s*=\s*0\s*;\s*\1\s*<\s*v1\s*;[^)]*\)\s*\{\s*(v\d+)\s*\+=\s*v0\[([^\]]+)\]\s*;\s*if\s*\(\s*(v\d+)\s*[<>=!]+\s*\2\s*\)", nb)
     if not m:
         raise AnchorLost("GenerateStochasticDistribution scan")
-    nm = {"i": "i", "s": "s", "n_species": "ns"}
+    cellv = m.group(1)
+    others = [x for x in re.findall(r"v\d+", m.group(3)) if x not in (cellv, "v2")]
+    if len(set(others)) != 1:
+        raise AnchorLost("GenerateStochasticDistribution scan index")
     L.append("/-- index of entry (cell i, species s) in the cell-major arrays of `GenerateStochasticDistribution` -/")
-    L.append("def gsdIndex (ns s i : Int) : Int := %s" % CppExpr(m.group(1), nm).parse())
-    L.append("def gsdHitCond : String := %s\n" % lean_str(re.sub(r"\s+", "", m.group(2))))
+    L.append("def gsdIndex (ns s i : Int) : Int := %s\n" % CppExpr(m.group(3), {cellv: "i", others[0]: "s", "v2": "ns"}).parse())
 
-    # ---- init-state dispatch: (condition, statements of the branch) in order, then the else branch
+    # ---- init-state dispatch: (condition, statements of the branch) in order, then the else branch.
+    # The exported functions keep their (C API) parameter names; their locals are renamed.
     for tag, fr in (("Grid", r"int\s+engineexport_initialize_grid\s*\("), ("Graph", r"int\s+engineexport_initialize_graph\s*\(")):
+        b = al2 = None
         b = cpp_function_body(eng, fr)
-        pos = b.find("is_stochastic")
-        if pos < 0:
-            raise AnchorLost("engine.cpp is_stochastic " + tag)
-        m = re.search(r"bool\s+is_stochastic\s*=\s*([^;]+);", b)
+        b = _alpha_cpp(b)(b)
+        m = re.search(r"bool\s+(v\d+)\s*=\s*(\(?\s*CompareStr\(\s*option\s*,[^;]*);", b)
         if not m:
             raise AnchorLost("engine.cpp is_stochastic definition " + tag)
-        L.append("def isStochasticDef%s : String := %s" % (tag, lean_str(re.sub(r"\s+", "", m.group(1)))))
+        L.append("def isStochasticDef%s : String := %s" % (tag, lean_str(re.sub(r"\s+", "", m.group(2)))))
         branches = []
         cur = m.end()
         while True:
             mm = re.compile(r"\s*(?:else\s+)?if\s*\(").match(b, cur)
             if not mm:
                 break
-            # balanced parenthesis of the condition
             i = mm.end() - 1
             depth, j = 0, i
             while True:
@@ -3074,7 +3121,7 @@ def gen_Stoch(repo):
                     if depth == 0:
                         break
                 j += 1
-            cond = re.sub(r"\s+", "", b[i + 1:j])
+            cond = re.sub(r"\s+", "", b[i + 1:j]).replace(m.group(1), "is_stochastic")
             k = b.index("{", j)
             e = _balanced(b, k)
             branches.append((cond, _cpp_stmts(b[k + 1:e])))
@@ -3086,20 +3133,22 @@ def gen_Stoch(repo):
         branches.append(("else", _cpp_stmts(b[mm.end():e])))
         if not all("init_state_processing" in c for c, _ in branches[:-1]):
             raise AnchorLost("engine.cpp init_state_processing dispatch conditions " + tag)
-        L.append("/-- the `init_state_processing` dispatch: (condition, statements) per branch, `else` last -/")
+        L.append("/-- the `init_state_processing` dispatch: (condition, statements) per branch, `else` last; locals renamed -/")
         L.append("def initBranches%s : List (String × List String) := %s" %
                  (tag, lean_list(["(%s, %s)" % (lean_str(c), strs(s)) for c, s in branches])))
-        # what Init receives as the state
+        # what Init receives as the state: the local that the branches assign
+        ma = re.search(r"(v\d+)\s*=\s*GenerateStochasticDistribution", b)
         mi = re.search(r"global_(?:grid|graph)_algo\s*->\s*Init\s*\(", b)
-        if not mi:
+        if not mi or not ma:
             raise AnchorLost("engine.cpp Init call " + tag)
         args = b[mi.end():]
-        L.append("def initPassesMeshX%s : Bool := %s" % (tag, "true" if re.search(r"\bmesh_x\s*,", args) else "false"))
+        L.append("def initPassesMeshX%s : Bool := %s" % (tag, "true" if re.search(r"\b%s\s*," % ma.group(1), args) else "false"))
     L.append("")
 
-    # ---- step functions of the algorithms (normalised statement lists)
+    # ---- step functions of the algorithms (statement lists; parameters and locals renamed v0, v1, …)
     def fn_stmts(fname, regex):
-        return _cpp_stmts(cpp_function_body(_cpp(repo, fname), regex))
+        params, fb = _cpp_fn(_cpp(repo, fname), regex)
+        return _cpp_stmts(_alpha_cpp(fb, params)(fb))
     items = [
         ("reactionProp", r"double\s+ReactionProp\s*\([^)]*\)\s*", "SimulationAlgorithm3DBase.hpp", "SimulationAlgorithmGraphBase.hpp"),
         ("diffusionProp", r"double\s+DiffusionProp\s*\([^)]*\)\s*", "SimulationAlgorithm3DBase.hpp", "SimulationAlgorithmGraphBase.hpp"),
